@@ -322,6 +322,11 @@ class _FakeTime:
     def sleep(self, s):
         self.slept += s
 
+    def monotonic(self):        # the cookie's age is a wall-clock matter: this clock says something else
+        return 12345.0
+
+    perf_counter = monotonic
+
 
 class _Spy:
     def __init__(self):
@@ -350,9 +355,15 @@ def patched_debug():
 class Rig:
     """One DebuggedApplication (one 'process'): the failure counter lives as long as the rig."""
 
-    def __init__(self, D, ft, logs, evalex: bool, pin_on: bool):
+    def __init__(self, D, ft, logs, evalex: bool, pin_on: bool, opts: dict | None = None):
+        """opts (construction-time configuration): pin_off ("nosec" = pin_security=False, "env" = WERKZEUG_DEBUG_PIN=off;
+        only looked at when pin_on is false), pin_logging, console_path, show_hidden_frames"""
         self.D, self.ft, self.logs = D, ft, logs
         self.evalex, self.pin_on = evalex, pin_on
+        opts = opts or {}
+        self.pin_logging = opts.get("pin_logging", True)
+        self.console_path = opts.get("console_path", "/console")
+        env_off = (not pin_on) and opts.get("pin_off") == "env"
         self.app_calls = 0
 
         def inner(environ, start_response):
@@ -363,11 +374,16 @@ class Rig:
         old = os.environ.get("WERKZEUG_DEBUG_PIN")
         os.environ["WERKZEUG_DEBUG_PIN"] = PIN
         try:
-            self.app = D.DebuggedApplication(inner, evalex=evalex, pin_security=pin_on)
+            self.app = D.DebuggedApplication(inner, evalex=evalex, pin_security=pin_on or env_off,
+                                             pin_logging=self.pin_logging, console_path=self.console_path,
+                                             show_hidden_frames=bool(opts.get("show_hidden_frames", False)))
             if pin_on:
                 assert self.app.pin == PIN
             # not app.pin_cookie_name: with pin_security=False that property would re-derive the PIN
             self.cookie_name = D.get_pin_and_cookie_name(inner)[1]
+            if env_off:     # the documented switch: WERKZEUG_DEBUG_PIN=off (read when the PIN is first needed)
+                os.environ["WERKZEUG_DEBUG_PIN"] = "off"
+                assert self.app.pin is None
         finally:
             if old is None:
                 del os.environ["WERKZEUG_DEBUG_PIN"]
@@ -379,7 +395,8 @@ class Rig:
         self.trusted = list(self.app.trusted_hosts)
 
     def cfg_line(self) -> dict:
-        return {"op": "dcfg", "evalex": self.evalex, "pin_on": self.pin_on, "pin": "A", "trusted": [cps(x) for x in self.trusted]}
+        return {"op": "dcfg", "evalex": self.evalex, "pin_on": self.pin_on, "pin": "A", "plog": bool(self.pin_logging),
+                "trusted": [cps(x) for x in self.trusted]}
 
     def configure(self, setd: dict) -> dict:
         """Reconfigure the live application through its public attributes; setd may hold "pin" ("A" | "B" | None),
@@ -399,10 +416,12 @@ class Rig:
         return {"op": "set", "evalex": self.evalex, "pin_on": self.pin_on, "pin": getattr(self, "pin_cur", "A"),
                 "trusted": [cps(x) for x in self.trusted], "what": sorted(setd)}
 
-    def _cookie(self, kind: str, var: int) -> str | None:
+    def _cookie(self, kind: str, var: int, age_days=None) -> str | None:
         D = self.D
         now = int(self.ft.now)
         good = D.hash_pin(PIN)
+        if age_days is not None:    # the right hash, issued `age_days` ago (the request says whether that is "valid" or "expired")
+            return f"{self.cookie_name}={now - int(age_days * 86400)}|{good}"
         if kind == "absent":
             return None
         if kind == "valid":
@@ -431,7 +450,7 @@ class Rig:
         path = "/"
         cmd = q["cmd"]
         if cmd == "console":
-            path = "/console"
+            path = self.console_path or "/console"
         elif cmd == "none":
             if var % 2:
                 args.append(("__debugger__", "no"))
@@ -466,7 +485,7 @@ class Rig:
         if host is not None:
             environ["HTTP_HOST"] = host
         assert host is not None or "HTTP_HOST" not in environ
-        ck = self._cookie(q["cookie"], var)
+        ck = self._cookie(q["cookie"], var, q.get("age"))
         if ck is not None:
             environ["HTTP_COOKIE"] = ck
         seen = {}
@@ -530,7 +549,7 @@ def run_script(script) -> list[dict]:
     """script = {"evalex", "pin_on", "steps": [[q, host, var, exp|None, exp_cnt], ...]} -> trace lines of one
     fresh application (dcfg line first).  Executed in a worker process."""
     with patched_debug() as (D, ft, logs):
-        rig = Rig(D, ft, logs, script["evalex"], script["pin_on"])
+        rig = Rig(D, ft, logs, script["evalex"], script["pin_on"], script.get("opts"))
         lines = [rig.cfg_line()]
         for step in script["steps"]:
             q, host, var = step[0], step[1], step[2]
@@ -542,6 +561,41 @@ def run_script(script) -> list[dict]:
                 ln["has_exp"], ln["exp"], ln["exp_cnt"] = True, step[3], step[4]
             lines.append(ln)
         return lines
+
+
+COOKIE_AGES = [(0, "valid"), (6, "valid"), (6.999, "valid"), (7, "expired"), (8, "expired"), (30, "expired"), (365, "expired")]
+CLASS_HOSTS = ["localhost", "evil.com", "evillocalhost", "localhost.evil.com", "a..localhost"]   # trusted / untrusted / look-alikes / malformed
+
+
+def command_config_scripts() -> list[dict]:
+    """COMMAND x CONFIGURATION: every debugger command x every construction-time configuration (PIN on / pin_security=False /
+    WERKZEUG_DEBUG_PIN=off, pin_logging, evalex, console_path, show_hidden_frames) x host class x secret right / wrong,
+    and the PIN cookie's AGE (fresh ... 365 days, right hash) on every command the cookie gates."""
+    scripts = []
+    for pin_on, pin_off in ((True, None), (False, "nosec"), (False, "env")):
+        for plog in (True, False):
+            for evalex in (True, False):
+                for cpath, hidden in (("/console", False), ("/dbg/console", True)):
+                    steps, i = [], 0
+                    for g in GATED:
+                        for secret in ("right", "wrong"):
+                            if g["cmd"] == "console" and secret == "wrong":
+                                continue
+                            for h in CLASS_HOSTS:
+                                if g["cmd"] == "pinauth" and not pin_on and h == "localhost":
+                                    continue   # PIN off + pinauth on a trusted host: not a gate question (see report)
+                                steps.append([dict(g, secret=secret if g["cmd"] != "console" else "absent"), h, i])
+                                i += 1
+                    scripts.append({"evalex": evalex, "pin_on": pin_on, "steps": steps, "src": "cmdcfg",
+                                    "opts": {"pin_off": pin_off, "pin_logging": plog, "console_path": cpath, "show_hidden_frames": hidden}})
+    steps = []
+    for age, cls in COOKIE_AGES:
+        for cmd, frame in (("eval", "known"), ("eval", "console"), ("pinauth", "unknown")):
+            for h in ("localhost", "evil.com"):
+                steps.append([dict(_rq(cmd, cls, "wrong", frame), age=age), h, len(steps)])
+    for evalex in (True, False):
+        scripts.append({"evalex": evalex, "pin_on": True, "steps": steps, "src": "cmdcfg", "opts": {"pin_logging": evalex}})
+    return scripts
 
 
 def _rq(cmd, cookie="absent", pin="wrong", frame="known", secret="right"):
